@@ -792,7 +792,8 @@ impl<'a> Parser<'a> {
         let (end, if_true) = self.parse_branch(next, depth)?;
         let end = self.optional_whitespace(end)?;
         let has_false_branch = self.re[end..].starts_with('|');
-        if end == next && !has_false_branch {
+        // white space (in free-spacing mode) and comments after the condition are not a branch
+        if end == self.optional_whitespace(next)? && !has_false_branch {
             // Backreference validity checker
             if let (true, &Expr::Backref(group)) = (is_group_test, &condition) {
                 let after = self.check_for_close_paren(end)?;
